@@ -12,6 +12,12 @@ BIN = os.path.join(HARNESS, 'target', 'debug', 'stamverif')
 def build_harness():
     """Rebuild the harness against /repo's current working tree (hooks on via .cargo/config.toml)."""
     t0 = time.time()
+    repo = os.environ.get('VERIF_REPO')
+    if repo and repo != '/repo':
+        # background runs on a snapshot (vp run --with-repo): point this copy of the harness at that snapshot
+        ct = os.path.join(HARNESS, 'Cargo.toml')
+        txt = open(ct).read()
+        open(ct, 'w').write(re.sub(r'stam = \{ path = "[^"]*" \}', 'stam = { path = "%s" }' % repo, txt))
     env = dict(os.environ, CARGO_NET_OFFLINE='true')
     p = subprocess.run(['cargo', 'build', '--offline'], cwd=HARNESS, env=env, stdout=subprocess.PIPE,
                        stderr=subprocess.STDOUT, text=True)
@@ -25,7 +31,7 @@ def generate(name, constants, depth=None, simulate=None, simdepth=None, workers=
     wd = workdir('gen_' + name)
     cfg = os.path.join(wd, 'gen.cfg')
     base = dict(MaxRes=2, MaxSets=1, MaxAnns=4, MaxData=3, MaxKeys=2, Depth=depth or simdepth or 3, Scenario='all',
-                Size='s', Prelude=0, DevShift=False)
+                Size='s', Prelude=0, Reads=[], DevShift=False)
     base.update(constants)
     write_cfg(cfg, constants=base, constraint='Bounded', invariants=['Emit'])
     r = run_tlc('MC_Store.tla', cfg, wd, workers=workers, simulate=simulate,
@@ -153,9 +159,12 @@ def attribute(m, diffs):
     props = set()
     paths = [norm_path(p) for p, _, _ in diffs]
     if exp.get('readonly'):
-        return {'C03'} if ev == 'Lookup' else {READONLY_OWNER.get(ev, 'C01')}
+        return {READONLY_OWNER.get(ev, 'C01')}
     expected_err = exp.get('outcome') in ('err', 'either')
     if expected_err and ev not in REMOVALS:
+        if rec['outcome'] == 'ok' and exp.get('outcome') == 'err':
+            # an invalid request was accepted: offsets -> C04, anything else -> the store family (C01)
+            return {'C04'} if ev == 'Annotate' and _has_offset(rec['a']['target']) else {'C01'}
         return {'C14'}
     for p in paths:
         if p.startswith('st.ix.') or p in ('pos', 'textual_order') or p.startswith('api.res') or p.startswith('api.totals') \
@@ -175,17 +184,24 @@ def attribute(m, diffs):
         else:
             if p.startswith('st.sets[*].data') or p.startswith('st.sets[*].keys') or p == 'st.sets':
                 props.add('C10')
-            if p.startswith('st.res[*].tsel') or p.startswith('st.anns[*].leaves'):
+            if p.endswith('.leaves[*].m'):
+                props.add('C05')      # only the alignment mode of a reported offset differs
+            elif p.startswith('st.res[*].tsel') or p.startswith('st.anns[*].leaves'):
                 props.add('C04')
                 props.add('C01')
-            if p in ('outcome', 'result', 'projection') or p.startswith('st.anns') or p.startswith('st.res'):
+            if p in ('outcome', 'result', 'projection') or ((p.startswith('st.anns') or p.startswith('st.res')) and not p.endswith('.leaves[*].m')):
                 props.add('C01')
     if not props:
         props.add('C01')
     return props
 
 
-READONLY_OWNER = {}
+READONLY_OWNER = {'Lookup': 'C03', 'TextSel': 'C04', 'AnnTextOf': 'C04', 'OffsetReport': 'C04', 'Utf8Byte': 'C12',
+                  'ByteToChar': 'C12', 'TextOp': 'C07', 'TestRelation': 'C13', 'RelatedText': 'C06'}
+
+
+def _has_offset(t):
+    return (t['kind'] == 'Text') or (t['kind'] == 'Ann' and t['off']['has']) or any(_has_offset(x) for x in t.get('subs', []))
 
 
 def arg_features(rec):
@@ -206,6 +222,20 @@ def arg_features(rec):
     elif ev == 'InsertData':
         f.append('safety=' + str(a['safety']).lower())
         f.append('id=' + a['id']['by'])
+    elif ev in ('TextSel', 'Utf8Byte', 'ByteToChar', 'TextOp'):
+        f.append('on=' + a['c']['on'])
+        if ev == 'TextOp':
+            f.append('op=' + a['op'])
+        if ev == 'TextSel':
+            f.append('off=' + a['off']['bk'] + a['off']['ek'])
+    elif ev == 'OffsetReport':
+        f.append('m=%d' % a['m'])
+    elif ev in ('TestRelation', 'RelatedText'):
+        o = a['o']
+        f.append('op=' + o['op'] + (',all' if o['all'] else '') + (',neg' if o['negate'] else '') + (',ws' if o['ws'] else '') + (',limit' if o['limit'] else ''))
+        f.append('A=%d' % len(a['A']))
+        if 'B' in a:
+            f.append('B=%d' % len(a['B']))
     elif ev == 'Lookup':
         f.append('kind=' + a['kind'])
         f.append('by=' + a['ref']['by'])
